@@ -1,8 +1,9 @@
 """C09 -- pool keeps its size; workers are recycled on schedule without harm."""
-from checks import poolcommon, poolreal, workercommon
+from checks import poolparts, poolcommon, poolreal, workercommon
 
 
 def main(ctx):
     poolcommon.run(ctx, 'C09')
+    poolparts.run(ctx, 'C09')         # multi-part jobs under supervision
     workercommon.run(ctx, 'C09')
     poolreal.run(ctx, 'C09')
